@@ -397,6 +397,13 @@ func Generate(seed uint64, profile string, faults bool) *Scenario {
 		o.qlChoices = []int{-1, -1, 2, 3}
 		badVar = 60
 		mix["reload"] = 1
+		if g.p(300) {
+			// pipelines that disappear and come back while their jobs run: needs saves to purge them meanwhile
+			cfg.Store = "mem"
+			mix["reload"] = 4
+			mix["save"] = 3
+			o.retention = g.p(300)
+		}
 	case "C02":
 		o.maxTasks = 6
 		o.cyclePermille = 120
